@@ -16,7 +16,7 @@ RULE = ("bounded-exhaustive bracket sequences: every sequence of N leaves from {
 ASSUMPTIONS = ["programs whose only issue is gates after a trailing unmatched prepare_all are not judged (statement ambiguous)",
                "termination of accepted programs is C08's clause: a step-budget overrun here is inconclusive for C12"]
 TIERS = {"quick": {"shards": 8, "budget_s": 120}, "thorough": {"shards": 16, "budget_s": 480}}
-REQUIRE = {"loop-count-overridden-programs": 1000, "object-assembled-programs": 2000, "ref-accept": 500, "ref-reject:measure-without-prepare": 100, "ref-reject:gate-outside-subcircuit": 100,
+REQUIRE = {"idle-gate-variants": 2000, "loop-count-overridden-programs": 1000, "object-assembled-programs": 2000, "ref-accept": 500, "ref-reject:measure-without-prepare": 100, "ref-reject:gate-outside-subcircuit": 100,
            "ref-reject:measure-in-loop-closes-earlier-prepare": 50, "states-compared": 500}
 
 
@@ -88,6 +88,22 @@ def judge(case):
 
 def _clauses(case):
     return {f[0] for f in judge(case)[1]}
+
+
+def idle_variant(prog):
+    """Every ordinary gate replaced by its idle counterpart."""
+    hit = [False]
+
+    def rw(s):
+        if not isinstance(s, tuple):
+            return s
+        if s[0] == "gate" and s[1] == "X":
+            hit[0] = True
+            return ("gate", "I_X") + s[2:]
+        return tuple(rw(x) for x in s)
+
+    out = rw(prog)
+    return out if hit[0] else None
 
 
 def letify(rng, prog):
@@ -242,6 +258,12 @@ def shard(ctx):
             emitted.add(prog)
             process(ctx, {"prog": prog}, seen)
             rec.count("bracket-programs")
+            if j % 4 == 1:
+                # the same bracket structure with idle gates (they use no qubit, but they are gates: the rule applies)
+                ip = idle_variant(prog)
+                if ip is not None:
+                    process(ctx, {"prog": ip}, seen, minimise_budget=0)
+                    rec.count("idle-gate-variants")
             if j % 3 == 0:
                 lp = letify(ctx.rng, prog)
                 if lp is not None:
